@@ -221,7 +221,7 @@ func TestVerif_C18(t *testing.T) {
 	k := verifkit.Start(t, "C18")
 	prop := c18Prop(t, k)
 	k.Regress(t, func(sub string, raw json.RawMessage) error { return verifkit.Decode(raw, prop) })
-	verifkit.Rapid(k, t, "message-sequences", k.N(5000, 200000), c18Gen, prop)
+	verifkit.Rapid(k, t, "message-sequences", k.N(5000, 1000000), c18Gen, prop)
 }
 
 var _ = sort.Strings
